@@ -100,6 +100,22 @@ def method(I, ref, o, name, args, kw):
         o.meta["elems"][key] = (args[0], n)
         o.meta["len"] = ops._arith(I, "+", n, mkint(1))
         return B.NONE
+    if name == "extend":
+        I.log_write(("cont", ref.ref))
+        a0 = I.resolve(args[0])
+        if not isinstance(a0, VRef) or I.hobj(a0).kind not in ("list", "symlist"):
+            a0 = I.new_list(I.iterate(a0))
+        if o.meta["elem_type"] != "concat":
+            old = VRef(I.path.alloc(HObj("symlist", items=[], meta=o.meta)))
+            cat = I.hobj(concat_lists(I, [old, a0], name="extended"))
+            o.meta = cat.meta
+            return B.NONE
+        ao = I.hobj(a0)
+        n = mkint(len(ao.items)) if ao.kind == "list" else ao.meta["len"]
+        o.meta = dict(o.meta)
+        o.meta["segs"] = list(o.meta["segs"]) + [(o.meta["len"], n, a0)]
+        o.meta["len"] = ops._arith(I, "+", o.meta["len"], n)
+        return B.NONE
     raise Unsupported(f"symbolic list method {name}")
 
 
